@@ -581,6 +581,7 @@ def run(ctx):
         ctx.fail('C12.R9', f.key, f.site, f.message + ' - a request whose batch item ID has such a length is then answered with a response no client can decode')
     if not lifted:
         ctx.ok('C12.R9', 'kmip/core/primitives.py', 'decoded text/byte strings keep a padding count in 0..7')
+    _c01.check_text_decoder_units(ctx, 'C12.R12', ' (shared with C01.R10; here: response.write of the message loop sits outside every try, so a text that decodes but cannot be encoded leaves the request unanswered)')
     # ---------------- R10 every failed item can be encoded (shared with C02.R9)
     from .c02 import check_failure_messages_nonempty
     check_failure_messages_nonempty(ctx, 'C12.R10')
